@@ -24,6 +24,10 @@ registration, not only of lookup), then dispatch of the step texts.
 Part (d), engine E2: histories of load_step_modules() calls in one process over generated step
 module directories (modules that switch the matcher and do or do not switch back), factory state
 and matcher class of every definition after each load, differential against a fresh process.
+
+Part (e), engine E4: regex patterns with optional, nested and alternative groups (first / middle /
+last position) and texts in which each optional group is present / absent; arguments in group-index
+order with None for groups that did not take part, spans = group spans, call log.
 """
 import atexit
 import itertools
@@ -71,7 +75,16 @@ RULE = ("(a) patterns = token sequences of length 1-3 (thorough: also length 4 o
         "factory's current and default matcher must be the project default, every new definition must have been "
         "built by the matcher in force at that point of its module, each definition is dispatched with a typed "
         "instance and with its pattern source text, and every later load is repeated alone in a fresh state and "
-        "must register the same definitions (differential). Non-trivial there = at least one module switches.")
+        "must register the same definitions (differential). Non-trivial there = at least one module switches. "
+        "(e) regular expressions with groups that need not take part: sequences of 1-3 slots over {literal, (\\d+), "
+        "named group, optional part '(?: kw (group))?' unnamed/named, optional group glued to a keyword 'kw(\\d+)?' "
+        "unnamed/named, nested groups with the inner one at the start / middle / end of the outer one, outer named or "
+        "inner named, optional inner group, alternation '(?:(..)kwa|(..)kwb)' unnamed / named / inside a capturing "
+        "group} for re, re0 with ^...$ and re0; texts = every combination of present/absent optional parts and "
+        "alternation branches; the oracle knows every group's text and span by construction (the re module is not "
+        "consulted): Match.arguments in group-index order with start/end = the group's span, (-1, -1, None) for a "
+        "group that did not take part; positional call arguments = unnamed groups in that order (None if absent), "
+        "keyword arguments by name. Non-trivial there = a text whose pattern has >= 2 groups.")
 ASSUMPTIONS = [
     "field values, literals and prefixes/suffixes are ASCII without 0x/0b/0o prefixes; the languages of {:d} and "
     "{:f} include an optional sign out of '+', '-', ' ' (parse's format-spec sign set; a blank sign only arises "
@@ -94,6 +107,9 @@ ASSUMPTIONS = [
     "process-wide behave.step_registry.registry: that registry is cleared at the start and end of every case; the "
     "protocol taken as documented: every module starts with the project default (= the matcher current when "
     "load_step_modules() is entered) and the current matcher is the project default again after the load",
+    "regex groups that do not take part in a match (part e): expected as an argument with value None, original "
+    "None, start = end = -1 at its group-index position (Python re semantics; the statement only speaks of matched "
+    "parameters); nested groups legitimately overlap, so the non-overlap clause is only applied in part (a)",
     "cucumber expressions (behave.cucumber_expression) are not one of the four matcher kinds and are not covered",
 ]
 
@@ -1291,6 +1307,188 @@ def modules_cases(max_modules):
                 yield (up, tuple(loads))
 
 
+# =============================================================================
+# part (e): regular expressions with optional / nested / alternative groups
+# =============================================================================
+# A pattern is a sequence of 1-3 slots.  Every slot kind gives its regex fragment and its text choices; a text choice
+# lists the slot's groups in GROUP-INDEX order as (name, captured text or None, start, end) relative to the fragment -
+# known by construction, the re module is not consulted by the oracle.  Keywords are lower-case letters and differ
+# per slot position, values are digits / upper-case letters, so the match is unique.
+RX_SLOTS = ("L", "G", "Gn", "Ow", "Own", "Od", "Odn", "Ns", "Nm", "Ne", "Nno", "Nni", "No", "A", "Ac", "An")
+RX_WRAPPED = ("Ow", "Own")          # (?: kw (group))?  - the separating blank lives inside the optional part
+
+
+def rx_slot(kind, i):
+    """-> (regex fragment, [(text fragment, [(name, value, start, end) | (name, None, -1, -1), ...]), ...])"""
+    k = "k" + "abc"[i]
+    d = ("3", "41", "7")[i]
+    u = ("ZZ", "Y", "XW")[i]
+    n = len(k)
+
+    def g(name, val, start):
+        return (name, val, start, start + len(val))
+    absent = lambda name: (name, None, -1, -1)      # noqa
+    if kind == "L":
+        return "w" + k, [("w" + k, [])]
+    if kind == "G":
+        return r"(\d+)", [(d, [g(None, d, 0)])]
+    if kind == "Gn":
+        return r"(?P<p%d>\d+)" % i, [(d, [g("p%d" % i, d, 0)])]
+    if kind in ("Ow", "Own"):
+        name = "o%d" % i if kind == "Own" else None
+        grp = r"(?P<%s>\d+)" % name if name else r"(\d+)"
+        return "%s %s" % (k, grp), [("%s %s" % (k, d), [g(name, d, n + 1)]), (None, [absent(name)])]
+    if kind in ("Od", "Odn"):
+        name = "o%d" % i if kind == "Odn" else None
+        grp = r"(?P<%s>\d+)?" % name if name else r"(\d+)?"
+        return k + grp, [(k + d, [g(name, d, n)]), (k, [absent(name)])]
+    if kind == "Ns":
+        return r"((\d+)x%s)" % k, [(d + "x" + k, [g(None, d + "x" + k, 0), g(None, d, 0)])]
+    if kind == "Nm":
+        return r"(%s(\d+)x)" % k, [(k + d + "x", [g(None, k + d + "x", 0), g(None, d, n)])]
+    if kind == "Ne":
+        return r"(x%s(\d+))" % k, [("x" + k + d, [g(None, "x" + k + d, 0), g(None, d, n + 1)])]
+    if kind == "Nno":       # outer named, inner unnamed
+        return r"(?P<q%d>%s(\d+)x)" % (i, k), [(k + d + "x", [g("q%d" % i, k + d + "x", 0), g(None, d, n)])]
+    if kind == "Nni":       # outer unnamed, inner named
+        return r"(%s(?P<q%d>\d+)x)" % (k, i), [(k + d + "x", [g(None, k + d + "x", 0), g("q%d" % i, d, n)])]
+    if kind == "No":        # optional inner group
+        return r"(%s(\d+)?x)" % k, [(k + d + "x", [g(None, k + d + "x", 0), g(None, d, n)]),
+                                    (k + "x", [g(None, k + "x", 0), absent(None)])]
+    if kind in ("A", "An"):
+        n1, n2 = (("a%d" % i, "b%d" % i) if kind == "An" else (None, None))
+        g1 = r"(?P<%s>\d+)" % n1 if n1 else r"(\d+)"
+        g2 = r"(?P<%s>[A-Z]+)" % n2 if n2 else r"([A-Z]+)"
+        return r"(?:%s%sa|%s%sb)" % (g1, k, g2, k), [(d + k + "a", [g(n1, d, 0), absent(n2)]),
+                                                     (u + k + "b", [absent(n1), g(n2, u, 0)])]
+    if kind == "Ac":
+        return r"((\d+)%sa|([A-Z]+)%sb)" % (k, k), [
+            (d + k + "a", [g(None, d + k + "a", 0), g(None, d, 0), absent(None)]),
+            (u + k + "b", [g(None, u + k + "b", 0), absent(None), g(None, u, 0)])]
+    raise ValueError(kind)
+
+
+def rx_build(kind, slots):
+    """-> (pattern, [(text, [(start, end, original, value, name), ...] in group-index order), ...])"""
+    firstfix = min(i for i, sk in enumerate(slots) if sk not in RX_WRAPPED)
+    frags = []
+    for i, sk in enumerate(slots):
+        rx, choices = rx_slot(sk, i)
+        if sk in RX_WRAPPED:
+            lead, trail = (" ", "") if i > firstfix else ("", " ")
+            if len(slots) == 1:
+                lead = trail = ""
+            rx = "(?:%s%s%s)?" % (lead, rx, trail)
+            choices = [((lead + t + trail) if t is not None else "",
+                        [(nm, v, (st + len(lead)) if v is not None else -1, (en + len(lead)) if v is not None else -1)
+                         for (nm, v, st, en) in gs]) for (t, gs) in choices]
+        elif i > firstfix:
+            rx = " " + rx
+            choices = [(" " + t, [(nm, v, st + 1 if v is not None else -1, en + 1 if v is not None else -1)
+                                  for (nm, v, st, en) in gs]) for (t, gs) in choices]
+        frags.append((rx, choices))
+    pattern = "".join(rx for (rx, _) in frags)
+    if kind == "re0^$":
+        pattern = "^" + pattern + "$"
+    texts = []
+    for combo in itertools.product(*[ch for (_, ch) in frags]):
+        text, groups = "", []
+        for (t, gs) in combo:
+            for (nm, v, st, en) in gs:
+                groups.append((st + len(text), en + len(text), v, typed(v), nm) if v is not None
+                              else (-1, -1, None, typed(None), nm))
+            text += t
+        texts.append((text, tuple(groups)))
+    return pattern, texts
+
+
+def rxgroups_case(case):
+    """case = (kind, slots) -> every text;  (kind, slots, text index) -> that text only (replay)"""
+    if not _B:
+        init_worker()
+    kind, slots = case[0], tuple(case[1])
+    only = case[2] if len(case) > 2 else None
+    reset_state()
+    pattern, texts = rx_build(kind, slots)
+    _B["behave"].use_step_matcher(REAL_KIND[kind])
+    reg = _B["StepRegistry"]()
+    try:
+        reg.make_decorator("given")(pattern)(f1)
+        ok, err = len(reg.steps["given"]) == 1, "not registered (bad step definition)"
+    except Exception as e:      # noqa
+        ok, err = False, repr(e)
+    reset_state()
+    if not ok:
+        return [{"case": case, "out": ("rxgroups", kind, "registration failed"), "dg": err,
+                 "v": [({"subcheck": "regex-groups.match", "clause": "pattern-not-registrable", "kind": kind},
+                        "pattern %r (%s) could not be registered: %s" % (pattern, kind, err))]}]
+    results = []
+    for ti, (text, want) in enumerate(texts):
+        if only is not None and ti != only:
+            continue
+        v = []
+        where = "pattern %r (%s), step text %r" % (pattern, kind, text)
+        present = [k for k, g in enumerate(want) if g[2] is not None]
+        absentg = [k for k, g in enumerate(want) if g[2] is None]
+        if not absentg:
+            shape = "all-groups-take-part"
+        elif present and min(absentg) < max(present) and max(absentg) > min(present):
+            shape = "absent-group-between-or-mixed"
+        elif present and max(absentg) < min(present):
+            shape = "absent-group-before-matched-ones"
+        elif present:
+            shape = "absent-group-after-matched-ones"
+        else:
+            shape = "only-absent-groups"
+        m = reg.find_match(_B["Step"]("c11.feature", 1, u"Given", "given", text))
+        obs = None
+        if m is None or type(m).__name__ == "MatchWithError":
+            v.append(({"subcheck": "regex-groups.match", "clause": "instance-not-bound", "kind": kind},
+                      "%s: the text is an instance by construction, got %r" % (where, m)))
+        else:
+            got = tuple((a.start, a.end, a.original, typed(a.value), a.name) for a in m.arguments)
+            ran = run_match(m)
+            obs = (got, ran)
+            if got != want:
+                if sorted(got, key=repr) == sorted(want, key=repr):
+                    clause = "arguments-not-in-group-order"
+                elif [(g[3], g[4]) for g in got] == [(w[3], w[4]) for w in want]:
+                    clause = "argument-span-or-original"
+                else:
+                    clause = "argument-values-or-names"
+                v.append(({"subcheck": "regex-groups.arguments", "clause": clause, "kind": kind, "groups": shape},
+                          "%s: Match.arguments = %r, expected (group-index order, span(i), None and -1 for a group "
+                          "that did not take part) %r" % (where, got, want)))
+            want_args = tuple(w[3] for w in want if w[4] is None)
+            want_kw = dict((w[4], w[3]) for w in want if w[4] is not None)
+            calls = ran[2]
+            if ran[0] != "called" or len(calls) != 1 or calls[0][0] != "f1":
+                v.append(({"subcheck": "regex-groups.dispatch", "clause": "function-not-called-once", "kind": kind},
+                          "%s: Match.run -> %r" % (where, ran)))
+            else:
+                rargs = tuple(typed(x) for x in calls[0][1])
+                rkw = dict((k, typed(x)) for k, x in calls[0][2].items())
+                if rargs != want_args or rkw != want_kw:
+                    v.append(({"subcheck": "regex-groups.dispatch", "clause": "received-arguments", "kind": kind,
+                               "what": "positional" if rargs != want_args else "keyword", "groups": shape},
+                              "%s: step function received args=%r kwargs=%r, expected args=%r kwargs=%r"
+                              % (where, rargs, rkw, want_args, want_kw)))
+        results.append({"case": (kind, slots, ti), "v": v, "dg": (text, obs),
+                        "nt": (kind, slots, ti) if len(want) >= 2 else None,
+                        "out": ("rxgroups", kind, shape, "unnamed>=2" if sum(1 for w in want if w[4] is None) >= 2
+                                else "")})
+    return results
+
+
+def rxgroups_cases(lengths):
+    for n in lengths:
+        for kind in ("re", "re0^$", "re0"):
+            for slots in itertools.product(RX_SLOTS, repeat=n):
+                if all(sk in RX_WRAPPED for sk in slots):
+                    continue        # a pattern of optional parts only would need texts with a leading blank
+                yield (kind, slots)
+
+
 def bfs(ctx, alpha, depth, name, dedup=True):
     """one ctx.sweep per level; returns (hashes of the canonical states up to depth-1, number of expanded states,
     hashes of the states first reached at the last level).  Canonical states are compared through their 64-bit
@@ -1373,6 +1571,16 @@ def _run(ctx):
     ctx.guard(any(o[3] == "error-shadows" for o in couts), "lookup where a raising converter is in front exercised")
     ctx.guard(any(any(e == "silent" for (e, _) in o[2]) for o in couts) and
               any(any(e == "ignored" for (e, _) in o[2]) for o in couts), "silent and ignored registrations exercised")
+    # ---------------------------------------------------------------- (e) regex groups: optional / nested / alternative
+    ctx.sweep(rxgroups_case, rxgroups_cases((1, 2, 3)), chunk=16,
+              name="regex groups: optional/nested/alternative, slot sequences 1-3")
+    routs = [o for o in ctx.outcomes if isinstance(o, tuple) and o and o[0] == "rxgroups"]
+    for k in ("re", "re0^$", "re0"):
+        for shape in ("all-groups-take-part", "absent-group-before-matched-ones", "absent-group-after-matched-ones",
+                      "absent-group-between-or-mixed", "only-absent-groups"):
+            ctx.guard(any(o[1] == k and o[2] == shape for o in routs), "regex groups (%s): %s exercised" % (k, shape))
+        ctx.guard(any(o[1] == k and o[2] == "absent-group-after-matched-ones" and o[3] == "unnamed>=2" for o in routs),
+                  "regex groups (%s): absent optional group after a matched one, both unnamed" % k)
     # ---------------------------------------------------------------- (d) module-loading histories
     maxmod = 3 if ctx.quick else 5
     ctx.sweep(modules_case, modules_cases(maxmod), chunk=32,
